@@ -150,6 +150,10 @@ class Env(object):
                     kw['default'] = col['default']
                 if 'onupdate' in col:
                     kw['onupdate'] = col['onupdate']
+                if 'onupdate_sql' in col:
+                    # maintained by the DATABASE at UPDATE time (a SQL expression): the attribute is expired after
+                    # every flush that updates the row
+                    kw['onupdate'] = sa.literal_column(col['onupdate_sql'])
                 if 'server_default' in col:
                     kw['server_default'] = col['server_default']
                 column = sa.Column(*args, **kw)
